@@ -629,6 +629,13 @@ func (k Keeper) WithdrawLimitAuctionBid(ctx sdk.Context, bidder string, Collater
 	}
 	auctionParams, _ := k.GetAuctionParams(ctx)
 
+	if amount.Denom != userLimitBid.DebtToken.Denom {
+		return types.ErrorUnknownDebtToken
+	}
+	if amount.Amount.GT(userLimitBid.DebtToken.Amount) {
+		return types.ErrorMaxBidAmount
+	}
+
 	if amount.Amount.Equal(userLimitBid.DebtToken.Amount) {
 		err := k.CancelLimitAuctionBid(ctx, bidder, DebtTokenId, CollateralTokenId, PremiumDiscount)
 		if err != nil {
